@@ -69,7 +69,7 @@ ASSUMPTIONS = [
 	"func itself is assumed (C06/C09); tolerance 1e-9 on float64",
 	"caller tensors being modified is only counted (not part of C08)",
 ]
-REQUIRED = {"cap_calls_observed": 50, "ann_ne_out_cases": 10,
+REQUIRED = {"seed_history_calls": 20, "cap_calls_observed": 50, "ann_ne_out_cases": 10,
 	"product_nondividing": 10, "args_cases": 50}
 TIMEOUT = {"quick": 900, "thorough": 5400}
 # cases cost 1-10 ms, a worker start (torch + numba imports) ~10 s
@@ -1006,7 +1006,66 @@ def case_product(cls, params, rec):
 			det)
 
 
+def case_ablate_seed_history(cls, params, rec):
+	"""Call history: ablate(..., random_state=s_k, func=deep_lift_shap) for a
+	sequence of different seeds on the same model.  The documentation says
+	random_state seeds "both the shuffling step and the function if the
+	function also takes in a random state", so call k must equal
+	deep_lift_shap(model, <inputs of call k>, random_state=s_k); a seed that
+	survives from an earlier call (mutable default, mutated caller dict) shows
+	as a 'before' computed with stale references."""
+	from tangermeme.ablate import ablate
+	from tangermeme.deep_lift_shap import deep_lift_shap
+	from tangermeme.ersatz import shuffle
+	r = gen.pyrng(ID, "seedhist", params["hseed"])
+	B, L, n = params["B"], params["L"], params["n"]
+	seqs = distinct_seqs(r, B, L)
+	X = gen.ohe(seqs, dtype=torch.float64)
+	model = FloatModel(L, params["dseed"])
+	start, end = params["start"], params["end"]
+	fkw = {"n_shuffles": 2, "device": "cpu", "batch_size": 5}
+	mode = params["dict_mode"]
+	# a caller-owned, non-empty dict that is passed again on every call
+	shared = {"print_convergence_deltas": False} if mode == "reused-dict" \
+		else None
+	det = {"sequences": seqs, "start": start, "end": end, "n": n,
+		"seeds": params["seeds"], "dict_mode": mode}
+	for k, sd in enumerate(params["seeds"]):
+		kw = dict(fkw)
+		if mode == "reused-dict":
+			kw["additional_func_kwargs"] = shared
+		elif mode == "fresh-dict":
+			kw["additional_func_kwargs"] = {}
+		st, val = gen.call(ablate, model, X, start, end, n=n,
+			random_state=sd, func=deep_lift_shap, **kw)
+		if st == "raise":
+			rec.violation(cls, params, dict(det, what="ablate raised on call "
+				"%d of the history" % k, error=repr(val)[:300]),
+				mech="C08/ablate-raised")
+			return
+		yb, ya = val
+		eb = deep_lift_shap(model, X, random_state=sd, **fkw)
+		Xs = shuffle(X, start=start, end=end, n=n, random_state=sd)
+		ea = deep_lift_shap(model, Xs.reshape(B * n, 4, L), random_state=sd,
+			**fkw).reshape(B, n, 4, L)
+		rec.count("seed_history_calls")
+		for name, got, exp in (("before", yb, eb), ("after", ya, ea)):
+			if got.shape != exp.shape or (got - exp).abs().max() > TOL:
+				rec.violation(cls, params, dict(det, what="call %d "
+					"(random_state=%d): '%s' is not func applied with this "
+					"call's random_state" % (k, sd, name), call=k,
+					max_abs_diff=float((got - exp).abs().max())
+					if got.shape == exp.shape else None,
+					matches_first_seed=bool(k > 0 and name == "before" and
+					got.shape == exp.shape and (got - deep_lift_shap(model, X,
+					random_state=params["seeds"][0], **fkw)).abs().max()
+					<= TOL)), mech="C08/ablate-stale-func-seed")
+				return
+	rec.held(cls, params, nontrivial=len(set(params["seeds"])) > 1)
+
+
 CASES = {
+	"ablate_seed_history": case_ablate_seed_history,
 	"marginalize": case_marginalize,
 	"ablate": case_ablate,
 	"ablate_annotations": case_ablate_annotations,
@@ -1018,6 +1077,10 @@ CASES = {
 
 
 def run_case(cls, params, rec):
+	if params["fn"] == "ablate_seed_history":
+		with warnings.catch_warnings():
+			warnings.simplefilter("ignore")
+			return case_ablate_seed_history(cls, params, rec)
 	if params["n_args"] > 0 or params["fn"] in ("apply_pairwise",
 		"apply_product"):
 		rec.count("args_cases")
@@ -1210,6 +1273,9 @@ def plan(tier, seed):
 				("apply_pairwise", 4), ("apply_product", 6), ("nested", 2)):
 				units.append({"cls": fn, "kind": kind, "rep": rep,
 					"seed": seed, "tier": tier, "weight": w})
+	for rep in range(4 if tier == "quick" else 40):
+		units.append({"cls": "seedhist", "rep": rep, "seed": seed,
+			"tier": tier, "weight": 3})
 	if tier == "thorough":
 		for rep in range(12):
 			for fn in ("marginalize", "ablate", "space",
@@ -1229,6 +1295,18 @@ def run_unit(unit, rec):
 	cls = unit["cls"]
 	if cls == "attr":
 		return run_attr_unit(unit, rec)
+	if cls == "seedhist":
+		r = gen.pyrng(ID, unit["seed"], "seedhist", unit["rep"])
+		for t in range(3):
+			L = r.randint(12, 24)
+			s0 = r.randint(0, L - 6)
+			run_case("ablate-seed-history", {"fn": "ablate_seed_history",
+				"func": "dls", "n_args": 0, "B": r.randint(1, 3), "L": L,
+				"n": r.randint(1, 3), "start": s0, "end": s0 + r.randint(3,
+				6), "dseed": r.randrange(10 ** 6), "hseed": r.randrange(
+				10 ** 6), "seeds": [r.randrange(100) for _ in range(3)],
+				"dict_mode": ("none", "fresh-dict", "reused-dict")[t]}, rec)
+		return
 	kind, tier = unit["kind"], unit["tier"]
 	r = gen.pyrng(ID, unit["seed"], cls, kind, unit["rep"])
 	k = unit["rep"]
